@@ -103,7 +103,8 @@ Definition ex_kw_md : mdesc :=
     mkF 7 (KMsg 3) CRep None false false false;          (* repeated Value *)
     mkF 8 (KMsg 7) COpt None false false false;          (* Timestamp *)
     mkF 9 (KMsg 8) COpt None false false false;          (* Duration *)
-    mkF 10 (KMsg 9) COpt None false false false ].       (* FieldMask *)
+    mkF 10 (KMsg 9) COpt None false false false;         (* FieldMask *)
+    mkF 11 (KMsg 10) CRep None false false false ].      (* repeated Any *)
 Definition ex_value_md : mdesc :=
   [ mkF 1 (KS SkEnum) COpt (Some 0) false false false;
     mkF 2 (KS SkDouble) COpt (Some 0) false false false;
@@ -120,7 +121,7 @@ Definition ex_secs_nanos_md : mdesc :=
 
 Definition ex_schema_w : schema :=
   [[]; ex_t_md; ex_kw_md; ex_value_md; ex_struct_md; ex_listvalue_md; ex_int64value_md; ex_secs_nanos_md; ex_secs_nanos_md;
-   [ mkF 1 (KS SkString) CRep None true false false ]].
+   [ mkF 1 (KS SkString) CRep None true false false ]; ex_any_md].
 
 Definition ex_names_w : names :=
   mkNM
@@ -130,7 +131,8 @@ Definition ex_names_w : names :=
         [ mkFN (bs "opt_null") (bs "optNull") false (Some 1%nat); mkFN (bs "n") (bs "n") false None;
           mkFN (bs "opt_value") (bs "optValue") false None; mkFN (bs "st") (bs "st") false None;
           mkFN (bs "lv") (bs "lv") false None; mkFN (bs "w") (bs "w") false None; mkFN (bs "rv") (bs "rv") false None;
-          mkFN (bs "ts") (bs "ts") false None; mkFN (bs "dur") (bs "dur") false None; mkFN (bs "fm") (bs "fm") false None ];
+          mkFN (bs "ts") (bs "ts") false None; mkFN (bs "dur") (bs "dur") false None; mkFN (bs "fm") (bs "fm") false None;
+          mkFN (bs "anys") (bs "anys") false None ];
       mkMN (bs "google.protobuf.Value") 7
         [ mkFN (bs "null_value") (bs "nullValue") true (Some 1%nat); mkFN (bs "number_value") (bs "numberValue") true None;
           mkFN (bs "string_value") (bs "stringValue") true None; mkFN (bs "bool_value") (bs "boolValue") true None;
@@ -140,7 +142,8 @@ Definition ex_names_w : names :=
       mkMN (bs "google.protobuf.Int64Value") 4 [ mkFN (bs "value") (bs "value") false None ];
       mkMN (bs "google.protobuf.Timestamp") 2 [ mkFN (bs "seconds") (bs "seconds") false None; mkFN (bs "nanos") (bs "nanos") false None ];
       mkMN (bs "google.protobuf.Duration") 3 [ mkFN (bs "seconds") (bs "seconds") false None; mkFN (bs "nanos") (bs "nanos") false None ];
-      mkMN (bs "google.protobuf.FieldMask") 8 [ mkFN (bs "paths") (bs "paths") false None ] ]
+      mkMN (bs "google.protobuf.FieldMask") 8 [ mkFN (bs "paths") (bs "paths") false None ];
+      nth 0 (nm_msgs ex_names) mn_default ]
     (nm_enums ex_names).
 
 Definition v_null : value := VMsg [(1, [VS (SZ 0)])] [].
@@ -160,7 +163,12 @@ Definition ex_kw : value :=
          (7, [v_null; v_str ""; VMsg [(5, [VMsg [] []])] []]);
          (8, [VMsg [(1, [VS (SZ 951782400)]); (2, [VS (SZ 120000000)])] []]);      (* 2000-02-29T00:00:00.120Z *)
          (9, [VMsg [(2, [VS (SZ (-5))])] []]);                                       (* -0.000000005s *)
-         (10, [VMsg [(1, [VS (SBy (bs "user.display_name")); VS (SBy (bs "f1"))])] []]) ]
+         (10, [VMsg [(1, [VS (SBy (bs "user.display_name")); VS (SBy (bs "f1"))])] []]);
+         (* an Any holding verif.T{a: 7}, one holding Int64Value{value: 1}, one holding Empty, an empty one *)
+         (11, [ex_any "type.googleapis.com/verif.T";
+               VMsg [(1, [VS (SBy (bs "x/google.protobuf.Int64Value"))]); (2, [VS (SBy [x08; x01])])] [];
+               VMsg [(1, [VS (SBy (bs "google.protobuf.Empty"))])] [];
+               VMsg [] []]) ]
        [].
 
 (* F11: verif.KW{} -- unset explicit-presence Value and NullValue fields (textpb2.KnownTypes{}-like) *)
